@@ -1,6 +1,156 @@
+import Proofs.C12.Commit
 /-!
-# C12 — property theorems only (see DESIGN.md §3 C12).
+# C12 — taproot outputs commit to exactly their key and script tree (DESIGN.md §3 C12)
+
+Property theorems only.  The model is `Model/C12/Taproot.lean` (a function-by-function mirror of
+`btclib/script/taproot.py`), generic over the group operations `o : GroupOps α` and the tagged hash
+`H : tag → message → digest`; the SAME definitions are executed by the driver with
+`Btc.EC.ops secp256k1` and `Btc.taggedHash` and compared with the real code on both arithmetic arms.
+Tags, the 33/32 control-block layout, the 0xFE / 1 masks and the depth cap are `Gen.Taproot.*`
+(regenerated from the source each run); CompactSize is the translated `Gen.VarInt.serialize`.
+
+Hypotheses that are not proved here, and are named where used:
+* `L : Lawful o G`  — the operations are those of a group of prime order (property C01's business);
+* `YCongr L`        — the parity of the affine y is a function of the group element;
+* `Len32 H`         — digests are 32 bytes;
+* collision resistance is NOT assumed: T3 *constructs* the collision / the tweak alias.
 -/
 namespace Props.C12
+open Btc Btc.Taproot Gen.Taproot
+
+variable {α G : Type} [AddCommGroup G] {o : GroupOps α}
+
+/-- T1a (the sort on the way down is the `k < e` test on the way up, `k = e` included): whichever
+    child one climbs from, one step of `check_output_pubkey`'s fold is `tree_helper`'s branch hash. -/
+theorem sort_matches_fold (H : TagHash) (lh rh : Bytes) :
+    foldStep H lh rh = branchHash H lh rh ∧ foldStep H rh lh = branchHash H lh rh :=
+  ⟨foldStep_left H lh rh, foldStep_right H lh rh⟩
+
+/-- T1b (every tree, any shape, repeated leaves): each entry `((version, script), path)` that
+    `tree_helper` returns has the masked version, a path of one 32-byte node per level (at most the
+    depth of the tree), and folding its leaf hash up that path yields the root. -/
+theorem paths_fold_to_root {H : TagHash} (h32 : Len32 H) (t : Tree) (lf : LeafInfo) (h : lf ∈ leaves H t) :
+    ∃ d, d ≤ t.depth ∧ lf.2.length = 32 * d ∧
+      foldPath H (leafHash H lf.1.1 lf.1.2) lf.2 d = root H t ∧
+      lf.1.1 &&& LEAF_MASK = lf.1.1 ∧ lf.1.2 ∈ t.scripts :=
+  leaves_spec h32 t lf h
+
+/-- T1 (completeness): for every tree of depth ≤ 128, every SEC spelling `sec` of an internal key that
+    is a point, every leaf index: `output_pubkey` answers, `input_script_sig` answers, and
+    `check_output_pubkey(output key, leaf script, control block) = True`.
+    (`hQ`: the output point is not the point at infinity — an event of probability 2⁻²⁵⁶.) -/
+theorem completeness (L : Lawful o G) (hy : YCongr L) (hp : o.p ≤ 2 ^ 256) {H : TagHash} (h32 : Len32 H)
+    (sec : Bytes) (tree : Tree) (P : α) (t : Int)
+    (hdepth : tree.depth ≤ 128)
+    (hP : pointFromOctets o sec = .ok P)
+    (ht : tapTweak o H (xOnly sec) (root H tree) = .ok t)
+    (hQ : L.abs (tweakPoint o P t) ≠ 0) :
+    outputPubkey o H (some sec) (some tree) = .ok (outKey o (tweakPoint o P t)) ∧
+    ∀ i : Nat, i < (leaves H tree).length →
+      ∃ s c, inputScriptSig o H (some sec) tree i = .ok (s, c) ∧
+        checkOutputPubkey o H (outKey o (tweakPoint o P t)).1 s c = .ok true :=
+  completeness_aux L hy hp h32 sec tree P t hdepth hP ht hQ
+
+/-- T2 (key agreement, both y parities): for `0 < d < n` and any spelling `sec` of `±d·G`, the private
+    and the public tweak refuse together (exactly when `t ≥ n`), and when they answer,
+    `output_prvkey · G` IS the output point: same group element, hence same x-only key and parity. -/
+theorem key_agreement (L : Lawful o G) (hy : YCongr L) {H : TagHash} (d : Int) (h0 : 0 < d) (h1 : d < o.n)
+    (sec h : Bytes) (P' : α)
+    (hP : pointFromOctets o sec = .ok P')
+    (hsame : L.abs P' = d • L.abs o.gen ∨ L.abs P' = - (d • L.abs o.gen))
+    (hx : xOnly sec = beBytes 32 (o.x (o.mul d o.gen)).toNat) :
+    (∀ e, tweakedPrvkey o H d h = .error e ↔ tweakedPubkey o H sec h = .error e) ∧
+    (∀ d2, tweakedPrvkey o H d h = .ok d2 →
+      ∃ t, tapTweak o H (xOnly sec) h = .ok t ∧ 0 ≤ d2 ∧ d2 < o.n ∧
+        tweakedPubkey o H sec h = .ok (outKey o (tweakPoint o P' t)) ∧
+        L.abs (o.mul d2 o.gen) = L.abs (tweakPoint o P' t) ∧
+        (L.abs (tweakPoint o P' t) ≠ 0 → outKey o (o.mul d2 o.gen) = outKey o (tweakPoint o P' t))) :=
+  key_agreement_aux L hy d h0 h1 sec h P' hP hsame hx
+
+/-- T2r (a tweak out of range is refused, everywhere): `_tap_tweak` refuses exactly `t ≥ n`; then the
+    public tweak, the private tweak and the control-block check all answer that same refusal. -/
+theorem refuses_tweak_out_of_range (H : TagHash) (pk h : Bytes) :
+    (tapTweak o H pk h = .error .tweak ↔ o.n ≤ (ofBE (H TAG_TWEAK (pk ++ h)) : Nat)) ∧
+    (∀ t, tapTweak o H pk h = .ok t ↔ t = (ofBE (H TAG_TWEAK (pk ++ h)) : Nat) ∧ t < o.n) ∧
+    (∀ sec d, pk = xOnly sec → o.n ≤ (ofBE (H TAG_TWEAK (pk ++ h)) : Nat) →
+      xOnly sec = beBytes 32 (o.x (o.mul d o.gen)).toNat →
+      tweakedPubkey o H sec h = .error .tweak ∧ tweakedPrvkey o H d h = .error .tweak) :=
+  ⟨tapTweak_error_iff o H pk h, tapTweak_ok_iff o H pk h,
+   fun sec d e hr hx => by subst e; exact tweaked_refused sec h d hr hx⟩
+
+theorem check_refuses_tweak_out_of_range {H : TagHash} (q s : Bytes) (c0 : UInt8) (xb path : Bytes) (m : Nat)
+    (hx : xb.length = 32) (hp : path.length = 32 * m) (hm : m ≤ 128)
+    (hr : o.n ≤ (ofBE (H TAG_TWEAK (xb ++ foldPath H (leafHash H (c0.toNat &&& 254) s) path m)) : Nat)) :
+    checkOutputPubkey o H q s (c0 :: (xb ++ path)) = .error .tweak :=
+  check_tweak_refused q s c0 xb path m hx hp hm hr
+
+/-- T2x (an x that does not lift is refused on both sides): no control block whose bytes 1..32 are not
+    an x-coordinate is ever answered (True or False), and neither compressed spelling of such a key
+    gets an output key. -/
+theorem refuses_unliftable_key {H : TagHash} (xb : Bytes) (hl : o.liftX (ofBE xb : Nat) = none) :
+    (∀ q s c, (c.drop 1).take 32 = xb → ∃ e, checkOutputPubkey o H q s c = .error e) ∧
+    (∀ pre h, pre = 2 ∨ pre = 3 → ∃ e, tweakedPubkey o H (pre :: xb) h = .error e) :=
+  ⟨fun q s c e => check_unliftable q s c (by rw [e]; exact hl),
+   fun pre h hpre => tweakedPubkey_unliftable pre xb h hpre hl⟩
+
+/-- T3 (soundness, as a reduction): let `(q, par)` be the output key committed to the x-only internal
+    key `xb` and to `tree`.  If `check_output_pubkey(q, s', c')` answers True for ANY script and control
+    block, then either `(s', c')` is exactly a pair `input_script_sig` produces for a leaf of `tree`
+    (same version bits, same parity bit, same internal key, same path) — or the run exhibits two distinct
+    explicit preimages with one tagged-hash digest — or a second (internal key ‖ root) preimage whose
+    tweak lands on the same output key.  So "altered in any bit no longer verifies" holds up to those
+    two events, stated exactly. -/
+theorem soundness (L : Lawful o G) {H : TagHash} (h32 : Len32 H) (tree : Tree) (xb : Bytes)
+    (hxb : xb.length = 32) (htree : ∀ s ∈ tree.scripts, s.length < 2 ^ 64)
+    (q : Bytes) (par : Nat) (s' c' : Bytes) (hs' : s'.length < 2 ^ 64)
+    (hq : tweakedPubkey o H (2 :: xb) (root H tree) = .ok (q, par))
+    (hc : checkOutputPubkey o H q s' c' = .ok true) :
+    (∃ lf ∈ leaves H tree, s' = lf.1.2 ∧ c' = controlBlock par lf.1.1 xb lf.2) ∨
+    Collision H ∨ TweakAlias o H xb (root H tree) q :=
+  soundness_aux L h32 tree xb hxb htree q par s' c' hs' hq hc
+
+/-- T3m (merkle soundness alone): a (version, script, path) that folds to the root of a tree is one of
+    the tree's own leaves with its own path, or a collision is in hand. -/
+theorem merkle_soundness {H : TagHash} (h32 : Len32 H) (t : Tree) (v : Nat) (s path : Bytes) (m : Nat)
+    (hv : v < 256) (hs : s.length < 2 ^ 64) (ht : ∀ s' ∈ t.scripts, s'.length < 2 ^ 64)
+    (hp : path.length = 32 * m) (hf : foldPath H (leafHash H v s) path m = root H t) :
+    ((v, s), path) ∈ leaves H t ∨ Collision H :=
+  fold_sound h32 t v s path m hv hs ht hp hf
+
+/-- T3i: the TapLeaf preimage determines the version byte and the script (CompactSize is prefix-free) -/
+theorem leaf_preimage_injective (v v' : Nat) (s s' : Bytes) (hv : v < 256) (hv' : v' < 256)
+    (hs : s.length < 2 ^ 64) (hs' : s'.length < 2 ^ 64)
+    (h : UInt8.ofNat v :: varBytes s = UInt8.ofNat v' :: varBytes s') : v = v' ∧ s = s' :=
+  leafMsg_inj v v' s s' hv hv' hs hs' h
+
+/-- T4 (length gate): the two guards let through exactly the lengths `33 + 32·m`, `m ≤ 128` — and the
+    length 1 (Python's floor division makes `m = -1`; such a block is then refused, its internal key
+    being the empty string, x = 0).  The refusal kinds are: too long above the cap, bad length else. -/
+theorem length_gate (len : Nat) :
+    ((∃ m, lengthGate len = .ok m) ↔ (len = 1 ∨ ∃ m : Nat, m ≤ 128 ∧ len = 33 + 32 * m)) ∧
+    (∀ m, lengthGate len = .ok m ↔ (len ≤ 33 + 32 * 128 ∧ (len : Int) = 33 + 32 * m)) ∧
+    (∀ e, lengthGate len = .error e →
+      (e = .toolong ∧ len > 33 + 32 * 128) ∨ (e = .badlen ∧ ¬ ∃ m : Int, (len : Int) = 33 + 32 * m)) :=
+  ⟨lengthGate_passes_iff len, lengthGate_spec len, lengthGate_error len⟩
+
+/-- T4b (the bits are read from the right positions): on a block `c0 ‖ xb ‖ path` the verdict depends on
+    `c0` only through `c0 & 0xFE` (the leaf version hashed into the leaf) and `c0 & 1` (compared with the
+    parity of the output point), on bytes 1..32 as the internal key and on the rest as the path. -/
+theorem control_block_fields (o : GroupOps α) (H : TagHash) (q script : Bytes) (c0 : UInt8) (xb path : Bytes)
+    (m : Nat) (hx : xb.length = 32) (hp : path.length = 32 * m) (hm : m ≤ 128) :
+    checkOutputPubkey o H q script (c0 :: (xb ++ path)) = checkFields o H q script c0.toNat xb path m :=
+  check_eq o H q script c0 xb path m hx hp hm
+
+-- non-vacuity -----------------------------------------------------------------------------------
+/-- a toy 32-byte "hash" (no collision resistance needed to exercise the definitions) -/
+def Hx : TagHash := fun tag m => (tag ++ m ++ List.replicate 32 0).take 32
+
+example : Len32 Hx := by intro t m; simp [Hx]; omega
+example : lengthGate 33 = .ok 0 ∧ lengthGate 65 = .ok 1 ∧ lengthGate (33 + 32 * 128) = .ok 128 := by decide
+example : lengthGate 1 = .ok (-1) ∧ lengthGate 0 = .error .badlen ∧ lengthGate 64 = .error .badlen ∧
+    lengthGate (33 + 32 * 129) = .error .toolong := by decide
+example : ltBytes [1, 2] [1, 2, 0] = true ∧ ltBytes [1, 255] [2] = true ∧ ltBytes [7] [7] = false := by decide
+example : TAG_LEAF ≠ TAG_BRANCH ∧ TAG_BRANCH ≠ TAG_TWEAK := by decide
+example : (0xC1 &&& LEAF_MASK = 0xC0) ∧ (0xC1 &&& PARITY_MASK = 1) := by decide
 
 end Props.C12
